@@ -22,14 +22,15 @@ PLANS = {
         quick=dict(mc=["core2"], gens=[dict(maxlog=2, num=60, depth=24, lean=True, focus="commit"),
                                        dict(maxlog=2, num=500, depth=28, lean=True, focus="overlay", top=40, templates=True)],
                    per_beh=2, fs=[1, 1, 19, 21, 25], vts=["tiny", "edge", "ovf"], embs=api.EMBEDDINGS_QUICK),
-        thorough=dict(mc=["core", "core2"], gens=[dict(maxlog=2, num=600, depth=30, lean=True, focus="commit")],
-                      per_beh=5, fs=[1, 3, 19, 20, 21, 25, 400], vts=["tiny", "edge"], embs=api.EMBEDDINGS_ALL)),
+        thorough=dict(mc=["core", "core2"], gens=[dict(maxlog=2, num=600, depth=30, lean=True, focus="commit"),
+                                                  dict(maxlog=2, num=3000, depth=30, lean=True, focus="overlay", top=300, templates=True)],
+                      per_beh=5, fs=[1, 3, 19, 20, 21, 25, 400], vts=["tiny", "edge", "ovf"], embs=api.EMBEDDINGS_ALL)),
     "C05": dict(
-        quick=dict(mc=["ovl"], gens=[dict(maxlog=2, num=400, depth=26, lean=True, focus="overlay", top=40),
+        quick=dict(mc=["ovl"], gens=[dict(maxlog=2, num=400, depth=26, lean=True, focus="overlay", top=40, templates=True),
                                      dict(maxlog=2, num=40, depth=22, lean=True, focus="reopen")],
-                   per_beh=2, fs=[1, 3, 25], vts=["tiny", "edge"],
+                   per_beh=2, fs=[1, 3, 25], vts=["tiny", "edge", "ovf", "ovf"],
                    embs=["top:z", "top:o", "deep(6):z", "deep(12):o", "spread(7):z", "tail", "deep(250)", "spread(64)", "scatter"]),
-        thorough=dict(mc=["ovl", "core2"], gens=[dict(maxlog=2, num=4000, depth=30, lean=True, focus="overlay", top=400),
+        thorough=dict(mc=["ovl", "core2"], gens=[dict(maxlog=2, num=4000, depth=30, lean=True, focus="overlay", top=400, templates=True),
                                                  dict(maxlog=2, num=300, depth=28, lean=True, focus="reopen")],
                       per_beh=4, fs=[1, 3, 25, 60], vts=["tiny", "edge", "ovf"], embs=api.EMBEDDINGS_ALL)),
     "C06": dict(
@@ -84,10 +85,10 @@ PLANS = {
                                                 dict(maxlog=2, num=300, depth=32, lean=False, focus="overlay")],
                       per_beh=4, fs=[1, 3, 25], vts=["tiny", "edge", "ovf", "mixed"], embs=api.EMBEDDINGS_ALL)),
     "C12": dict(
-        quick=dict(mc=["core2"], gens=[dict(maxlog=2, num=80, depth=26, lean=True, focus="rejected"),
+        quick=dict(mc=["core2"], gens=[dict(maxlog=2, num=80, depth=26, lean=True, focus="rejected", templates="rejected"),
                                        dict(maxlog=2, num=1500, depth=30, lean=True, focus="overlay", top=30)],
                    per_beh=1, fs=[1, 3], vts=["tiny", "edge"], embs=api.EMBEDDINGS_QUICK, twins="rejected"),
-        thorough=dict(mc=["core", "core2", "ovl"], gens=[dict(maxlog=2, num=600, depth=32, lean=True, focus="rejected"),
+        thorough=dict(mc=["core", "core2", "ovl"], gens=[dict(maxlog=2, num=600, depth=32, lean=True, focus="rejected", templates="rejected"),
                                                          dict(maxlog=1, num=300, depth=32, lean=False, focus="rejected")],
                       per_beh=3, fs=[1, 3, 25], vts=["tiny", "edge", "ovf"], embs=api.EMBEDDINGS_ALL, twins="rejected")),
 }
@@ -136,7 +137,10 @@ def run_plan(pid, tier, seed, extra_cov=None, t0=None):
         if g.get("top"):
             # generate many, keep the behaviours richest in the features of the focus
             kept = sorted(kept, key=lambda b: -api.score(b, g["focus"]))[: g["top"]]
-        if g.get("templates") == "rollback":
+        if g.get("templates") == "rejected":
+            kept = kept + api.rejected_templates(sorted(consts["Keys"]))
+            tpl = []
+        elif g.get("templates") == "rollback":
             tpl = api.rollback_templates(sorted(consts["Keys"]), g["maxlog"])
             tpl = tpl if tier == "thorough" else rng.sample(tpl, 8)
         elif g.get("templates"):
